@@ -59,7 +59,10 @@ ObsHint(o)     == [cls |-> o.hint.cls, name |-> Name(o.hint.name)]
 InitObs == Traces[tid].init
 
 \* files of the current snapshot of the initial table, its snapshot ids, its timestamps
-InitCurBody == ObsMetas(InitObs)[ObsHint(InitObs).name]
+\* (the initial table's versions are linear: the current one is the highest, whatever the pointer file holds)
+InitCurName == IF DOMAIN ObsMetas(InitObs) = {} THEN NoName
+               ELSE CHOOSE n \in DOMAIN ObsMetas(InitObs) : \A k \in DOMAIN ObsMetas(InitObs) : k.v <= n.v
+InitCurBody == IF InitCurName = NoName THEN NoBody ELSE ObsMetas(InitObs)[InitCurName]
 InitFilesOf(lid) ==
   IF lid \notin DOMAIN ObsLists(InitObs) THEN {}
   ELSE UNION {IF ObsLists(InitObs)[lid][j] \in DOMAIN ObsMans(InitObs)
@@ -97,6 +100,7 @@ TraceInit ==
   /\ reads = <<>>
   /\ deleted = {}
   /\ initBody = InitCurBody
+  /\ joined = {}
 
 (***************************************************************************)
 (* Event binding.                                                          *)
@@ -122,10 +126,18 @@ TrResolve ==
        [] ev.why = "ds"       -> DsResolve(A, n)
        [] ev.why = "read"     -> RBegin(A, n)
        [] ev.why = "gc"       -> GBegin(A, n)
+       [] ev.why = "open" /\ pc[A] = "k_open" -> KOpen(A, n)
+       [] ev.why = "init"     -> KCheck(A, n)
        [] OTHER               -> NoopResolve(A, n)
 
 \* CAS backends: the pointer is read again, with its ETag, right before the new version is written
-TrReadHintEtag == IsEv("ReadHintEtag") /\ ev.ok /\ ReadVersion(A, Name(ev.name))
+\* (a pointer that is missing or does not parse yields no version: the code then resolves by scanning,
+\*  which arrives as a separate Resolve event)
+TrReadHintEtag ==
+  /\ IsEv("ReadHintEtag")
+  /\ IF ~ev.ok THEN hint.cls = "missing" /\ Stutter
+     ELSE IF Name(ev.name) = NoName THEN hint.cls = "garbage" /\ Stutter
+     ELSE ReadVersion(A, Name(ev.name))
 
 TrWriteMarker ==
   /\ IsEv("WriteMarker")
@@ -200,30 +212,34 @@ TrNow ==
   /\ IsEv("Now")
   /\ CASE ev.why = "ts"  -> StampSnapshot(A, ev.val)
        [] ev.why = "upd" -> StampUpdate(A, ev.val)
+       [] ev.why = "upd0" -> KStamp(A, ev.val)
        [] ev.why = "gcm" -> GStampM(A, ev.val)
        [] ev.why = "gcc" -> GStamp(A, ev.val)
        [] OTHER -> Stutter
 
-TrTLock   == IsEv("TLock") /\ TLock(A)
-TrTUnlock == IsEv("TUnlock") /\ TUnlock(A)
-TrLockTry == IsEv("LockTry") /\ IF ev.ok THEN DLock(A) ELSE (lockHolder \notin {"none", A} /\ Stutter)
-TrDUnlock == IsEv("DUnlock") /\ DUnlock(A)
+InCreate(a) == pc[a] \in {"k_open", "k_tlock", "k_dlock", "k_check", "k_stamp", "k_wmeta", "k_whint", "k_unlock", "k_tunlock", "k_done"}
+TrTLock   == IsEv("TLock") /\ IF InCreate(A) THEN KTLock(A) ELSE TLock(A)
+TrTUnlock == IsEv("TUnlock") /\ IF InCreate(A) THEN KTUnlock(A) ELSE TUnlock(A)
+TrLockTry == IsEv("LockTry") /\ IF ev.ok THEN (IF InCreate(A) THEN KDLock(A) ELSE DLock(A)) ELSE (lockHolder \notin {"none", A} /\ Stutter)
+TrDUnlock == IsEv("DUnlock") /\ (IF InCreate(A) THEN KDUnlock(A) ELSE DUnlock(A))
              /\ (("wiped" \in DOMAIN ev /\ ev.wiped) <=> (lockHolder \notin {A, "none"} /\ lockHolder' = "none"))
 
 TrWriteMeta ==
   /\ IsEv("WriteMeta")
   /\ ev.ok
-  /\ WriteMeta(A, Name(ev.name))
+  /\ IF InCreate(A) THEN KWriteMeta(A, Name(ev.name), ev.body.uuid) ELSE WriteMeta(A, Name(ev.name))
   /\ metas'[Name(ev.name)] = Body(ev.body)         \* the metadata the code wrote = the model's draft
 
 TrFence == IsEv("Fence") /\ Fence(A) /\ (ev.ok <=> pc'[A] = "c_flip")
 
 TrFlipHint ==
   /\ IsEv("FlipHint")
-  /\ FlipHint(A)
   /\ Name(ev.name) = MyMetaName(A)
-  /\ ev.cas => Name(ev.ifmatch) = loc[A].etagName       \* the conditional PUT is keyed to the read the model recorded
-  /\ ev.ok <=> (hint' = [cls |-> "name", name |-> MyMetaName(A)] /\ pc'[A] = "c_unlock")
+  /\ IF InCreate(A)
+     THEN KWriteHint(A) /\ (ev.ok <=> hint' = [cls |-> "name", name |-> MyMetaName(A)])
+     ELSE /\ FlipHint(A)
+          /\ ev.cas => Name(ev.ifmatch) = loc[A].etagName       \* the conditional PUT is keyed to the read the model recorded
+          /\ ev.ok <=> (hint' = [cls |-> "name", name |-> MyMetaName(A)] /\ loc'[A].after \in {"c_finish", "c_cleanup"})
 
 TrBackoff == IsEv("Backoff") /\ Backoff(A)
 TrHeartbeat == IsEv("Heartbeat") /\ IF ev.ok THEN (IF lease.t = clock THEN lockHolder = ev.who /\ Stutter ELSE Heartbeat(ev.who))
@@ -255,10 +271,12 @@ TrRet ==
           /\ ev.res = "ok" <=> loc[A].err = "none"
           /\ ev.res = "ok" => IF WantsData(A) THEN ToSet(ev.files) = loc[A].got     \* rows returned = files the model read
                                                ELSE ev.count = Cardinality(loc[A].rfiles)
+     ELSE IF InCreate(A) THEN KReturn(A) /\ ev.res = "ok" /\ ev.uuid = ResolvedBody.uuid
      ELSE IF ev.res = "ok" THEN ReturnOk(A)
      ELSE IF ev.res = "false" THEN Stutter      \* delete_snapshot of an absent snapshot: DsResolve already returned
      ELSE (IF pc[A] = "rollback" THEN ReturnErrLeaving(A) ELSE ReturnErr(A)) /\ ev.res = loc[A].err
 
+TrDamage == IsEv("Damage") /\ DamageHint(ev.cls, Name(ev.name)) /\ UNCHANGED <<>>
 TrTick == IsEv("Tick") /\ clock' = ev.val /\ ev.val >= clock
           /\ UNCHANGED <<storageVars, lockHolder, rlock, actorVars, faults, lease, ghostVars>>
 
@@ -277,7 +295,7 @@ TraceNext ==
   \/ TrCommitStart \/ TrFinish \/ TrFault \/ TrReadHintEtag
   \/ TrBegin \/ TrResolve \/ TrWriteMarker \/ TrWriteData \/ TrExists \/ TrRead \/ TrWriteMan \/ TrWriteList
   \/ TrNow \/ TrTLock \/ TrTUnlock \/ TrLockTry \/ TrDUnlock \/ TrWriteMeta \/ TrFence \/ TrFlipHint
-  \/ TrReadFailed \/ TrBackoff \/ TrHeartbeat \/ TrList \/ TrStat \/ TrDeleteMarker \/ TrDeleteFile \/ TrRet \/ TrTick \/ TrObserve
+  \/ TrDamage \/ TrReadFailed \/ TrBackoff \/ TrHeartbeat \/ TrList \/ TrStat \/ TrDeleteMarker \/ TrDeleteFile \/ TrRet \/ TrTick \/ TrObserve
 
 TraceSpec == TraceInit /\ [][TraceNext]_tvars
 
@@ -291,7 +309,8 @@ TraceSpec == TraceInit /\ [][TraceNext]_tvars
 (***************************************************************************)
 InvTable == << <<"TypeOK", TypeOK>>, <<"Serializable", TableDamaged \/ Serializable>>, <<"LinearChain", LinearChain>>,
                <<"AckedOnce", AckedOnce>>, <<"NoDoubleCommit", NoDoubleCommit>>,
-               <<"ReachablePresent", TableDamaged \/ ReachablePresent>>, <<"FlipReplacesValidated", FlipReplacesValidated>>, <<"LostLockNeverAcks", LostLockNeverAcks>>,
+               <<"ReachablePresent", TableDamaged \/ ReachablePresent>>, <<"FlipReplacesValidated", FlipReplacesValidated>>, <<"LostLockNeverAcks", LostLockNeverAcks>>, <<"SingleInit", SingleInit>>, <<"NeverReinitialised", NeverReinitialised>>,
+               <<"ResolveLatestCommitted", TableDamaged \/ ResolveLatestCommitted>>,
                <<"NoLiveDelete", NoLiveDelete>>, <<"NoDeleteOnAmbiguous", NoDeleteOnAmbiguous>>,
                <<"OnlyOrphansDeleted", OnlyOrphansDeleted>>, <<"AbortDeletesNothing", AbortDeletesNothing>>, <<"InflightPresent", InflightPresent>>, <<"ReadIsSnapshot", TableDamaged \/ ReadIsSnapshot>>, <<"ReadsMonotone", TableDamaged \/ ReadsMonotone>> >>
 ViolatedNow == {i \in 1..Len(InvTable) : ~InvTable[i][2]}
